@@ -706,7 +706,7 @@ func (r *replicateChannelManager) startReadChannel(ctx context.Context, sourceIn
 			RetryOptions:      r.retryOptions,
 		}, r.streamCreator,
 			r.downstream,
-			channelMappingKey == sourceInfo.PChannel,
+			r.channelMapping.UsingSourceKey(),
 			taskID,
 		)
 		if err != nil {
